@@ -215,7 +215,7 @@ func (coins Coins) IsValid() bool {
 
 		lowDenom := coins[0].Denom
 		for _, coin := range coins[1:] {
-			if strings.ToLower(coin.Denom) != coin.Denom {
+			if err := validateDenom(coin.Denom); err != nil {
 				return false
 			}
 			if coin.Denom <= lowDenom {
